@@ -357,7 +357,7 @@ def sign_match_cases(rng, res, n):
             variant = rng.choice(["sign_verify_ok", "verify_wrong_key", "verify_unsigned", "verify_with_append", "both_key_kinds",
                                   "missing_file", "sign_bad_key", "link_two_keys", "match_equal", "match_changed", "match_missing_link",
                                   "link_append", "link_one_key", "verify_gpg_no_id", "verify_with_output", "no_key_arg",
-                                  "verify_with_empty_output"])
+                                  "verify_with_empty_output", "verify_many", "verify_many", "verify_many"])
             if variant in ("sign_verify_ok", "verify_wrong_key"):
                 _av = ["-f", "l.layout", "-k", priv_path(k)]
                 st, _o, _e = cli.run_main("in_toto_sign", _av)
@@ -387,6 +387,20 @@ def sign_match_cases(rng, res, n):
                 _av = ["-f", "l.layout", "-k", os.path.join(d, "nokey.pem")]
                 st, _o, _e = cli.run_main("in_toto_sign", _av)
                 record(res, "sign", {"variant": variant}, st, "fail", argv=_av, file_kind="layout")
+            elif variant == "verify_many":
+                # a layout signed by some keys, verified with several keys in one invocation, in any order: status 0
+                # exactly when every given key verifies
+                trio = rng.sample(W.pool(), 3)
+                signers = rng.sample(trio, rng.randrange(1, 3))
+                _av = ["-f", "l.layout", "-k"] + [priv_path(x) for x in signers]
+                st, _o, _e = cli.run_main("in_toto_sign", _av)
+                record(res, "sign", {"variant": variant, "dsse": dsse, "n_keys": len(signers)}, st, "success", argv=_av, file_kind="layout")
+                ask = rng.sample(trio, rng.randrange(2, 4))
+                _av = ["-f", "l.layout", "--verify", "-k"] + [write_pub_pem(x, d) for x in ask]
+                st, _o, _e = cli.run_main("in_toto_sign", _av)
+                all_ok = all(x in signers for x in ask)
+                record(res, "sign_verify", {"variant": variant, "dsse": dsse, "asked_signed": [x in signers for x in ask]}, st,
+                       "success" if all_ok else "sig", argv=_av, file_kind="layout")
             elif variant in ("link_append", "link_one_key"):
                 lk = Link(name="s")
                 (Envelope.from_signable(lk) if dsse else Metablock(signed=lk)).dump("s.link")
